@@ -299,6 +299,65 @@ impl Env {
         }
     }
 
+    /// consume a chunk covering positions b..e through an Iterator method other than `next`
+    pub fn consume_via<T: Obs, It: ExactSizeIterator<Item = T>>(&mut self, what: &str, mut values: It, b: usize, e: usize, mode: usize) {
+        let len = e - b;
+        match mode {
+            0 | 1 | 9 => {
+                let k = mode;
+                let r = subj(|| values.nth(k));
+                match r {
+                    Some(x) => {
+                        if k >= len {
+                            let s = x.seen();
+                            self.fail(T_CHUNKOVER, "len-mismatch", format!("{what}: nth({k}) of a chunk of {len} elements yielded an element (key {})", s.key));
+                        } else {
+                            self.take(x, b + k, true);
+                            let left = values.len();
+                            if left != len - k - 1 && self.ok() {
+                                self.fail(T_CHUNKLEN, "len-inexact", format!("{what}: len() is {left} after nth({k}) on a chunk of {len}"));
+                            }
+                        }
+                    }
+                    None => {
+                        if k < len {
+                            self.fail(T_CHUNKUNDER, "len-mismatch", format!("{what}: nth({k}) of a chunk of {len} elements yielded nothing"));
+                        }
+                    }
+                }
+            }
+            20 => {
+                let c = subj(|| values.count());
+                self.obs.push(c as u64);
+                if c != len {
+                    self.fail(T_CHUNKLEN, "len-mismatch", format!("{what}: count() of a chunk announcing {len} elements is {c}"));
+                }
+                return;
+            }
+            21 => {
+                let r = subj(|| values.last());
+                match r {
+                    Some(x) => self.take(x, e - 1, true),
+                    None => self.fail(T_CHUNKUNDER, "len-mismatch", format!("{what}: last() of a chunk of {len} elements yielded nothing")),
+                }
+                return;
+            }
+            _ => {
+                let v: Vec<T> = subj(|| values.skip(1).collect());
+                if v.len() + 1 != len {
+                    self.fail(T_CHUNKLEN, "len-mismatch", format!("{what}: skip(1) of a chunk of {len} elements yielded {}", v.len()));
+                }
+                for (j, x) in v.into_iter().enumerate() {
+                    if self.ok() {
+                        self.take(x, b + 1 + j, true);
+                    }
+                }
+                return;
+            }
+        }
+        subj(|| drop(values));
+    }
+
     pub fn query<I: ConcurrentIter>(&mut self, it: &I) {
         if !self.ok() {
             return;
@@ -404,6 +463,20 @@ where
                         }
                     }
                 }
+                SOp::ChunkVia(n, mode) => {
+                    let n = resolve(n, env.len);
+                    match subj(|| itr.next_chunk(n)) {
+                        Some(c) => {
+                            let l = c.values.len();
+                            if let Some((b, e)) = env.chunk_shape("next_chunk", n, Some((c.begin_idx, l)), true) {
+                                env.consume_via("next_chunk", c.values, b, e, mode);
+                            }
+                        }
+                        None => {
+                            env.chunk_shape("next_chunk", n, None, true);
+                        }
+                    }
+                }
                 SOp::Hold(n) => {
                     let n = resolve(n, env.len);
                     if let Some(h) = held.take() {
@@ -479,6 +552,22 @@ where
                 SOp::BufDrop => {
                     if let Some(b) = buf.take() {
                         subj(|| drop(b));
+                    }
+                }
+                SOp::BufVia(mode) => {
+                    if let Some((bi, n)) = buf.as_mut() {
+                        let n = *n;
+                        match subj(|| bi.next()) {
+                            Some(c) => {
+                                let l = c.values.len();
+                                if let Some((b, e)) = env.chunk_shape("buffered next", n, Some((c.begin_idx, l)), false) {
+                                    env.consume_via("buffered chunk", c.values, b, e, mode);
+                                }
+                            }
+                            None => {
+                                env.chunk_shape("buffered next", n, None, false);
+                            }
+                        }
                     }
                 }
                 SOp::ForEach(n) | SOp::EnumForEach(n) | SOp::Fold(n) => {
